@@ -146,3 +146,116 @@ func posOf(p *ana.Prog, in ssa.Instruction) string {
 	}
 	return p.Pos(in.Parent().Pos())
 }
+
+// loopBound recognises the counted loops `for i := 0; i < B; i++`, `for i := 0; i != B; i++`,
+// `for i := range B` (rotated form) and `for i, x := range s` (B = len(s)) around block blk and
+// returns B when blk executes exactly once per iteration i = 0..B-1 (it dominates the
+// back edge). Other loop shapes are not recognised (ok=false).
+func loopBound(fn *ssa.Function, blk *ssa.BasicBlock) (ssa.Value, bool) {
+	for _, h := range fn.Blocks {
+		var latch *ssa.BasicBlock
+		for _, pr := range h.Preds {
+			if h.Dominates(pr) {
+				latch = pr
+			}
+		}
+		if latch == nil || !(h == blk || h.Dominates(blk)) || !(blk == latch || blk.Dominates(latch)) {
+			continue
+		}
+		for _, in := range h.Instrs {
+			ph, ok := in.(*ssa.Phi)
+			if !ok {
+				break
+			}
+			var entry ssa.Value
+			var inc *ssa.BinOp
+			okShape := true
+			for i, e := range ph.Edges {
+				if h.Dominates(h.Preds[i]) {
+					bo, isBo := e.(*ssa.BinOp)
+					if !isBo || bo.Op != token.ADD || bo.X != ssa.Value(ph) {
+						okShape = false
+						break
+					}
+					if k, isK := ana.ConstInt(bo.Y); !isK || k != 1 {
+						okShape = false
+						break
+					}
+					inc = bo
+				} else {
+					entry = e
+				}
+			}
+			if !okShape || inc == nil || entry == nil {
+				// range-over-slice lowering: the increment is computed in the header itself
+				continue
+			}
+			e0, isK := ana.ConstInt(entry)
+			if !isK {
+				continue
+			}
+			// continuation tests
+			var found ssa.Value
+			ana.IfEdges(fn, func(iff *ssa.If, b *ssa.BasicBlock) {
+				c, pos, isCmp := ana.AsCmp(iff.Cond)
+				if !isCmp || !pos || (c.Op != token.LSS && c.Op != token.NEQ) {
+					return
+				}
+				inLoop := b == h || h.Dominates(b)
+				if !inLoop {
+					return
+				}
+				switch {
+				case c.X == ssa.Value(ph) && e0 == 0 && b == h:
+					// for i := 0; i < B; i++ : body entered while the test holds
+					if b.Succs[0] == blk || b.Succs[0].Dominates(blk) {
+						found = c.Y
+					}
+				case c.X == ssa.Value(inc) && e0 == -1:
+					// range over a slice: next = idx+1; next < len(s)
+					found = c.Y
+				case c.X == ssa.Value(inc) && e0 == 0 && (b == latch || b.Dominates(latch)):
+					// rotated `for i := range B`: needs the entry guard 0 < B
+					guard := false
+					ana.IfEdges(fn, func(iff2 *ssa.If, b2 *ssa.BasicBlock) {
+						c2, pos2, isCmp2 := ana.AsCmp(iff2.Cond)
+						if isCmp2 && pos2 && c2.Op == token.LSS && c2.Y == c.Y {
+							if k, ok := ana.ConstInt(c2.X); ok && k == 0 && (b2.Succs[0] == h || b2.Succs[0].Dominates(h)) {
+								guard = true
+							}
+						}
+					})
+					if guard {
+						found = c.Y
+					}
+				}
+			})
+			if found != nil {
+				return found, true
+			}
+		}
+		// range over a slice: header holds  idx = phi[-1, next]; next = idx + 1; if next < len(s)
+		for _, in := range h.Instrs {
+			ph, ok := in.(*ssa.Phi)
+			if !ok {
+				break
+			}
+			for i, e := range ph.Edges {
+				if !h.Dominates(h.Preds[i]) {
+					continue
+				}
+				bo, isBo := e.(*ssa.BinOp)
+				if !isBo || bo.Op != token.ADD || bo.X != ssa.Value(ph) || bo.Block() != h {
+					continue
+				}
+				if iff, ok := h.Instrs[len(h.Instrs)-1].(*ssa.If); ok {
+					c, pos, isCmp := ana.AsCmp(iff.Cond)
+					if isCmp && pos && c.Op == token.LSS && c.X == ssa.Value(bo) {
+						return c.Y, true
+					}
+				}
+			}
+		}
+	}
+	return nil, false
+}
